@@ -63,6 +63,13 @@ ClassMaps == <<
     (B :> "p/Y") @@ (C :> "q/Z") @@ (T :> "y/T2"),
     (A :> "p/B"),                                   \* onto a name the jar may hold
     (A :> "r/X") @@ (B :> "r/Y") @@ (I :> "r/X$J") @@ (C :> "r/Z") @@ (L :> "y/L2") @@ (T :> "y/T2") >>
+(* thorough tier: every combination of a choice for A, for B and for the inner class *)
+ClassMapSet ==
+    {ClassMaps[i] : i \in DOMAIN ClassMaps}
+    \cup (IF Tier = 0 THEN {}
+          ELSE {a @@ b @@ i : a \in {<<>>, (A :> "p/X"), (A :> "r/X")},
+                              b \in {<<>>, (B :> "p/Y"), (B :> "r/Y")},
+                              i \in {<<>>, (I :> "p/A$J"), (I :> "r/X$J"), (I :> "s/Flat")}})
 (* member renames: <<class, kind, name, desc, new name>> *)
 MA == {<<A, "f", "f", "I", "ff">>, <<A, "f", "g", "Lp/A;", "gg">>, <<A, "m", "m", "()V", "mm">>, <<A, "m", "h", "(Lp/A;)Lp/B;", "hh">>}
 MB == {<<B, "m", "m", "()V", "bm">>, <<B, "f", "f", "I", "bf">>}
@@ -72,8 +79,8 @@ MemberMaps == <<{}, MA, MA \cup MB, MT, MA \cup MB \cup MT \cup MI>>
 
 (* the mapping set: a class node for every renamed class and every class with member renames; a class *)
 (* without rename gets its own name as target (ident) or no target name (then its members are ignored) *)
-NodeClasses(cm0, mm0) == {c \in {A, B, I, C, L, T} : c \in DOMAIN ClassMaps[cm0] \/ \E e \in MemberMaps[mm0] : e[1] = c}
-TargetOf(cm0, id0, c) == IF c \in DOMAIN ClassMaps[cm0] THEN ClassMaps[cm0][c] ELSE IF id0 THEN c ELSE ""
+NodeClasses(cm0, mm0) == {c \in {A, B, I, C, L, T} : c \in DOMAIN cm0 \/ \E e \in MemberMaps[mm0] : e[1] = c}
+TargetOf(cm0, id0, c) == IF c \in DOMAIN cm0 THEN cm0[c] ELSE IF id0 THEN c ELSE ""
 MemberNode(e) == IF e[2] = "f" THEN Field(<<e[3], e[5]>>, e[4], <<>>) ELSE Method(<<e[3], e[5]>>, e[4], <<>>, <<>>)
 MapSetOf(cm0, mm0, id0) ==
     Root(<<"a", "b">>, <<>>,
@@ -187,10 +194,10 @@ SupOf(sh) ==
 AbsEntry(e) == IF e.k = "class" THEN [k |-> "class", this |-> e.c.this, rows |-> Refs(e.c), res |-> e.n] ELSE IF e.k = "other" THEN [k |-> "other", id |-> e.d] ELSE [k |-> "dir"]
 AbsJar(js) == [n \in {js[i].n : i \in DOMAIN js} |-> AbsEntry(js[CHOOSE i \in DOMAIN js : js[i].n = n])]
 
-Init == phase = "start" /\ shape = 0 /\ cm = 0 /\ mm = 0 /\ ident = FALSE /\ probe = 0 /\ extras = "none"
+Init == phase = "start" /\ shape = 0 /\ cm = <<>> /\ mm = 0 /\ ident = FALSE /\ probe = 0 /\ extras = "none"
         /\ ms = <<>> /\ X = <<>> /\ jseq = <<>> /\ J = <<>>
 PickShape == phase = "start" /\ \E s \in ShapeIdx : shape' = s /\ phase' = "shape" /\ UNCHANGED <<cm, mm, ident, probe, extras, ms, X, jseq, J>>
-PickCM == phase = "shape" /\ \E c \in DOMAIN ClassMaps : cm' = c /\ phase' = "cm" /\ UNCHANGED <<shape, mm, ident, probe, extras, ms, X, jseq, J>>
+PickCM == phase = "shape" /\ \E c \in ClassMapSet : cm' = c /\ phase' = "cm" /\ UNCHANGED <<shape, mm, ident, probe, extras, ms, X, jseq, J>>
 PickMM == /\ phase = "cm"
           /\ \E m \in DOMAIN MemberMaps, id \in BOOLEAN :
                 /\ mm' = m /\ ident' = id
